@@ -26,6 +26,7 @@ class Tracker(CmdMixin, MboxMixin, SweepMixin, Monitor):
         self.mb = {}                       # (app, mid) -> MbInc (current)
         self.np = {}                       # (app, name) -> NpInc (current)
         self.msgs = defaultdict(list)      # (app, mid) -> [(side, phase, body, id, rx)]
+        self.retired_np = {}               # (app, name) -> mailbox id of an incarnation that ended by its last release
         self.mid_owner = {}                # mailbox id -> (app, name, n) nameplate incarnation it was answered for
         self.inc_counter = 0
         self.violations = []
@@ -152,7 +153,13 @@ class Tracker(CmdMixin, MboxMixin, SweepMixin, Monitor):
                 self.known_finding("F8", {"C06", "C17"}, st, {"cmd": st.msg.get("type"), "exc": st.exc,
                                                               "mailbox_stored_under_another_app": True})
         if st.exc and st.kind in ("cmd", "connect", "drop") and not f8:
-            self.flag({"C17"}, "internal failure in handler", st,
+            # the command's own guarantee is broken too (close always completes, release is always answered, ...)
+            own = {"close": "C08", "release": "C07", "claim": "C03", "open": "C01", "add": "C02", "allocate": "C04", "list": "C18"}
+            t = st.msg.get("type") if isinstance(st.msg, dict) else None
+            cm = self.cm.get(st.conn)
+            cls = cm.classify(st.msg)[0] if (cm is not None and st.kind == "cmd") else None
+            extra = {own[t]} if (t in own and cls == VALID) else set()
+            self.flag({"C17"} | extra, "internal failure in handler", st,
                       {"exc": st.exc, "msg": st.msg, "tb": _tail(st.tb)})
         for (c, how) in st.drops:
             self.flag({"C17"}, "server dropped the connection", st, {"conn": c, "how": how, "msg": st.msg})
